@@ -34,6 +34,7 @@ type c18Ev struct {
 	slot int
 	kind byte // C A P R S
 	line []byte
+	at   int // ms since the start at which the harness really applied it (a busy machine may be late)
 }
 
 type c18Scn struct {
@@ -123,8 +124,9 @@ func c18Run(s *c18Scn) {
 	done := make(chan res, 1)
 	var once sync.Once
 	start := time.Now()
-	for _, e := range s.evs {
+	for i, e := range s.evs {
 		c18SleepUntil(start, e.slot)
+		s.evs[i].at = int(time.Since(start) / time.Millisecond)
 		switch e.kind {
 		case 'C':
 			once.Do(func() {
@@ -188,11 +190,11 @@ func genPauseModel(c *ctx) {
 		}
 		scns = append(scns, s)
 	}
-	C := func(slot int) c18Ev { return c18Ev{slot, 'C', nil} }
-	A := func(slot int, l []byte) c18Ev { return c18Ev{slot, 'A', l} }
-	P := func(slot int) c18Ev { return c18Ev{slot, 'P', nil} }
-	R := func(slot int) c18Ev { return c18Ev{slot, 'R', nil} }
-	S := func(slot int) c18Ev { return c18Ev{slot, 'S', nil} }
+	C := func(slot int) c18Ev { return c18Ev{slot: slot, kind: 'C'} }
+	A := func(slot int, l []byte) c18Ev { return c18Ev{slot: slot, kind: 'A', line: l} }
+	P := func(slot int) c18Ev { return c18Ev{slot: slot, kind: 'P'} }
+	R := func(slot int) c18Ev { return c18Ev{slot: slot, kind: 'R'} }
+	S := func(slot int) c18Ev { return c18Ev{slot: slot, kind: 'S'} }
 	protos := []int{3, 4}
 	rep := c.pick(1, 3)
 	for r := 0; r < rep; r++ {
@@ -319,6 +321,7 @@ func genPauseModel(c *ctx) {
 		wave := make([]*c18Scn, len(scns))
 		for i, s := range scns {
 			cp := *s
+			cp.evs = append([]c18Ev(nil), s.evs...)
 			wave[i] = &cp
 			alts[i] = append(alts[i], &cp)
 		}
@@ -401,7 +404,7 @@ func c18ReaderOracles(c *ctx, s *c18Scn) {
 		pausing := false
 		lastDisturb := -1 << 30
 		for _, e := range s.evs {
-			at := e.slot * c18Unit
+			at := e.at
 			if at >= s.ms {
 				break
 			}
@@ -435,7 +438,7 @@ func c18ReaderOracles(c *ctx, s *c18Scn) {
 			case 'C':
 				called = true
 			}
-			last = e.slot * c18Unit
+			last = e.at
 		}
 		if called && !pausing && s.horizon*c18Unit-last > 3*s.timeout*1000+200 {
 			c.violate("reader-hang:"+s.family, "recvCheckV2 did not return although the transfer was not paused", desc)
@@ -453,7 +456,7 @@ func c18GateOracles(c *ctx, s *c18Scn) {
 	pausing, stopped := false, false
 	lastResume := -1
 	for _, e := range s.evs {
-		at := e.slot * c18Unit
+		at := e.at
 		if s.class != "none" && at >= s.ms {
 			break
 		}
